@@ -1,6 +1,7 @@
 // C01 harness: libphysica's Interpolation / Interpolation_2D on the case file (grammar: checks/C01.py).
 // One line = one table + a list of queries; every query runs on a copy of the freshly constructed object
-// (the model's locate is the search of a fresh object; history independence is property C09).
+// (the model's locate is the search of a fresh object; history independence is property C09), except in the
+// history modes h1 / h2 where all queries go to one live object; t3 drives the data-table constructor of Interpolation_2D.
 #include "common.hpp"
 #include "libphysica/Numerics.hpp"
 using namespace libphysica;
@@ -121,8 +122,28 @@ static void handler(vh::Reader& r, vh::Out& o)
 			xs.push_back(row.empty() ? 0.0 : row[0]);
 		queries1(r, o, base, scaled(xd, xs));
 	}
-	else if(op == "t2")
+	else if(op == "t3")
 	{
+		double xd = r.num(), yd = r.num(), fd = r.num();
+		std::vector<std::vector<double>> rows = r.table();
+		Interpolation_2D base(rows, xd, yd, fd);
+		long nq = r.integer();
+		for(long q = 0; q < nq; q++)
+		{
+			std::string qo = r.word();
+			if(qo != "I")
+			{
+				o.w("HARNESSERR unknown_query");
+				return;
+			}
+			double x = r.num(), y = r.num();
+			Interpolation_2D g = base;
+			o.f(g.Interpolate(x, y));
+		}
+	}
+	else if(op == "t2" || op == "h2")
+	{
+		const bool fresh = (op == "t2");
 		double xd = r.num(), yd = r.num(), fd = r.num();
 		std::vector<double> xs = r.list(), ys = r.list();
 		std::vector<std::vector<double>> f = r.table();
@@ -135,8 +156,13 @@ static void handler(vh::Reader& r, vh::Out& o)
 			if(qo == "I")
 			{
 				double x = r.num(), y = r.num();
-				Interpolation_2D g = base;
-				o.f(g.Interpolate(x, y));
+				if(fresh)
+				{
+					Interpolation_2D g = base;
+					o.f(g.Interpolate(x, y));
+				}
+				else
+					o.f(base.Interpolate(x, y));
 			}
 			else if(qo == "C")
 			{
@@ -148,8 +174,13 @@ static void handler(vh::Reader& r, vh::Out& o)
 					for(long b = 0; b <= m; b++)
 					{
 						double y		   = (b == m) ? y1 : y0 + (y1 - y0) * double(b) / double(m);
-						Interpolation_2D g = base;
-						o.f(g(x, y));
+						if(fresh)
+						{
+							Interpolation_2D g = base;
+							o.f(g(x, y));
+						}
+						else
+							o.f(base(x, y));
 					}
 				}
 			}
